@@ -125,6 +125,38 @@ def compare_fp_line(pair_line, fp_line, eps):
     return True, worst, ""
 
 
+def fine_eval_bound(c, pl, text):
+    """(exact value, sum_k |c_k| |x - xm|^k) of `SplEval a x` from the exact model state shown in the case"""
+    tk = text.split()
+    a, x = int(tk[1]), Fr(tk[2])
+    grid = None
+    for i, t in enumerate(c.lines, 1):
+        if t.startswith("GridNew 0 "):
+            n = int(t.split()[2])
+            grid = [Fr(v) for v in t.split()[3:3 + n]]
+        if t == f"Show {a}":
+            out = pl.get(f"{c.cid}.{i}", "").split()
+            if len(out) < 4 or out[1] != "SPL":
+                return None
+            start = int(out[4])
+            gi = out.index("GRID")
+            p2 = gi + 2 + int(out[gi + 1])
+            ncoef = int(out[p2]); p2 += 1
+            coefs = []
+            for _ in range(ncoef):
+                ln = int(out[p2])
+                coefs.append([Fr(v.split("~")[0]) for v in out[p2 + 1:p2 + 1 + ln]])
+                p2 += 1 + ln
+            for j, cj in enumerate(coefs):
+                lo, hi = grid[start + j], grid[start + j + 1]
+                if lo < x < hi:
+                    dx = x - (lo + hi) / 2
+                    exact = sum(ck * dx ** kk for kk, ck in enumerate(cj))
+                    return exact, sum(abs(ck) * abs(dx) ** kk for kk, ck in enumerate(cj))
+            return None
+    return None
+
+
 def stage_fp_round(pid, seed, tier, workdir):
     import props
     cases = props.gen_C16(seed, tier)
@@ -164,6 +196,16 @@ def stage_fp_round(pid, seed, tier, workdir):
                                              "history": c.lines[:i], "oracle": "fails", "explanation": "outcome differs"})
                     continue
                 okc, ratio, msg = compare_fp_line(pl[k], hl.get(k), eps)
+                if okc and c.meta.get('fine_eval') and text.startswith("SplEval"):
+                    # finer reading for evaluations: the terms involved are c_k (x - xm)^k of the stored piece
+                    fine = fine_eval_bound(c, pl, text)
+                    if fine is not None:
+                        exact, sfine = fine
+                        got = hex_to_fraction((hl.get(k) or "OK 0x0p+0").split()[1])
+                        err = abs(got - exact)
+                        if (sfine == 0 and err != 0) or (sfine != 0 and err > 2 ** 20 * eps * sfine):
+                            okc, msg = False, (f"evaluation error {float(err):.3e} exceeds 2^20 eps * sum_k |c_k||x-xm|^k = "
+                                               f"{float(2 ** 20 * eps * sfine):.3e} (cancellation in the local coordinate)")
                 if ratio is not None:
                     w = max(w, ratio)
                 if "~" in pl[k]:
@@ -202,11 +244,28 @@ def gen_C17(seed, tier):
         c.grid_new(0, pts)
         oa, ob = rng.randint(0, 3), rng.randint(0, 3)
         wins = {}
-        for (d, o) in ((1, oa), (2, ob)):
-            w = rng.choice(props.windows(n))
+        allw = props.windows(n)
+        w1 = rng.choice(allw)
+        if r % 3 != 2:
+            # two cases out of three: the supports share at least one interval (nested, overlapping or identical)
+            w1 = rng.choice([w for w in allw if props.nint(w) >= 1])
+            w2 = rng.choice([w for w in allw if min(w[1], w1[1]) - max(w[0], w1[0]) >= 2])
+        else:
+            w2 = rng.choice(allw)
+        for (d, o, w) in ((1, oa, w1), (2, ob, w2)):
             wins[d] = w
             c.sup_new(1000 + d, 0, w[0], w[1])
-            c.spl_new(d, o, 1000 + d, [[props.dyadic_coef(rng) for _ in range(o + 1)] for _ in range(props.nint(w))])
+            coefs = [[props.dyadic_coef(rng) for _ in range(o + 1)] for _ in range(props.nint(w))]
+            # pieces whose coefficients cancel (sum exactly 0) or partly vanish: a 'this piece is zero' shortcut based
+            # on anything but all coefficients must not drop them
+            for j, arr in enumerate(coefs):
+                if o >= 1 and (r + j) % 3 == 0:
+                    arr[-1] = -sum(arr[:-1]) or Fr(0)
+                    if all(x == 0 for x in arr):
+                        arr[0], arr[-1] = Fr(1), Fr(-1)
+                elif (r + j) % 5 == 1:
+                    arr[0] = Fr(0)
+            c.spl_new(d, o, 1000 + d, coefs)
         c.meta['pts'] = pts
         c.meta['wins'] = wins
         for deg in range(0, 4):
@@ -235,6 +294,7 @@ def stage_fp_quad(pid, seed, tier, workdir):
     pl = dict(ln.split(" ", 1) for ln in out.splitlines() if " " in ln)
     worst = Fr(0)
     exact_side = below_side = 0
+    with_common = sum(1 for c in cases if min(c.meta['wins'][1][1], c.meta['wins'][2][1]) - max(c.meta['wins'][1][0], c.meta['wins'][2][0]) >= 2)
     for v in (["fp_double"] if tier == 'quick' else ["fp_double", "fp_ldouble", "fp_double_O2"]):
         ok, binp, log = pipeline.build_harness(cases, os.path.join(workdir, "quad"), v)
         if not ok:
@@ -291,7 +351,8 @@ def stage_fp_quad(pid, seed, tier, workdir):
                 else:
                     below_side += 1
     res["notes"] = {"worst_error_in_units_of_eps_times_S": float(worst), "cases_with_exactness_bound_met": exact_side,
-                    "cases_below_the_bound_checked_for_coverage_only": below_side}
+                    "cases_below_the_bound_checked_for_coverage_only": below_side,
+                    "spline_pairs": len(cases), "spline_pairs_with_a_common_interval": with_common}
     res["samples"] = [{"case": cases[0].cid, "ops": cases[0].lines[:6]}]
     return res
 
@@ -491,6 +552,22 @@ def gen_C12_eigen(seed, tier):
     return cases
 
 
+def _nonsingular(m):
+    """exact rank test (fraction Gaussian elimination)"""
+    a = [list(r) for r in m]
+    n = len(a)
+    for k in range(n):
+        p = next((i for i in range(k, n) if a[i][k] != 0), None)
+        if p is None:
+            return False
+        a[k], a[p] = a[p], a[k]
+        for i in range(k + 1, n):
+            if a[i][k] != 0:
+                f = a[i][k] / a[k][k]
+                a[i] = [x - f * y for x, y in zip(a[i], a[k])]
+    return True
+
+
 def stage_fp_interp(pid, seed, tier, workdir):
     cases = gen_C12_eigen(seed, tier)
     wd = os.path.join(workdir, "eigen")
@@ -550,8 +627,10 @@ def stage_fp_interp(pid, seed, tier, workdir):
                 res["diffs"].append({"variant": "fp_double_eigen", "case": c.cid, "line": idx, "op": text, "model": f"{n} coefficients", "impl": f"{len(coefs)} finite coefficients",
                                      "history": c.lines[:idx], "oracle": "fails", "explanation": "wrong number of / non-finite coefficients"})
                 continue
-            # skip (nearly) singular systems: exact solvability is a premise of the property
-            from fractions import Fraction
+            # unique solvability is a premise of the property: systems that are singular in exact arithmetic are skipped
+            if not _nonsingular([r[:n] for r in rows]):
+                singular += 1
+                continue
             resid = max(abs(sum(r[j] * coefs[j] for j in range(n)) - r[n]) for r in rows)
             scale = max(sum(abs(r[j]) for j in range(n)) for r in rows) * max(abs(v) for v in coefs) + max(abs(r[n]) for r in rows)
             ratio = float(resid / (eps * scale)) if scale else 0.0
@@ -561,6 +640,7 @@ def stage_fp_interp(pid, seed, tier, workdir):
                 res["diffs"].append({"variant": "fp_double_eigen", "case": c.cid, "line": idx, "op": text, "model": "residual at backward-error level",
                                      "impl": f"normwise residual {ratio:.3e} eps", "history": c.lines[:idx], "oracle": "fails",
                                      "explanation": f"||M c - b|| = {float(resid):.3e} exceeds 2^20 eps (||M|| ||c|| + ||b||) = {float(2 ** 20 * eps * scale):.3e}: the returned spline violates the interpolation conditions beyond the solver's backward-error level (M, b are the exactly assembled system of the proved model)"})
-    res["notes"] = {"worst_normwise_backward_error_in_eps": worst, "threshold": 2 ** 20, "systems": res["evaluations"]}
+    res["notes"] = {"worst_normwise_backward_error_in_eps": worst, "threshold": 2 ** 20, "systems": res["evaluations"],
+                    "skipped_because_singular_in_exact_arithmetic": singular}
     res["samples"] = [{"case": cases[0].cid, "ops": cases[0].lines}]
     return res
